@@ -4,10 +4,14 @@
     sqrt(x*x+y*y), the specification of std::hypot.  Vocabulary (C16_Proofs.v): [nhat a] = a/|a|, [dot3], [cross3],
     [vscal], [vplus], [mtr] (transpose), [I2], [I3], [det2], [det3], [nonzero3 a0 a1 a2] = some component is non-zero,
     [right_handed_frame e1 e2 e3] = orthonormal with e1 x e2 = e3,
-    [in_frame r s c phi e1 e2 ev] = r (s cos(phi) e1 + s sin(phi) e2 + c ev). *)
+    [in_frame r s c phi e1 e2 ev] = r (s cos(phi) e1 + s sin(phi) e2 + c ev).
+    Second part (C16_Proofs_Hist.v): argument objects with a call history.  [vstep] is one step in the life of a Vector object
+    (a write, +=, -=, an assignment, Resize, Normalize, ..., or a question: Norm, Dot, Angle, an earlier Rotation_Matrix /
+    Spherical_Coordinates call with the object), [vhistory start h] the object after the history h, [rotation_of_object] /
+    [spherical_of_object] the call with that object; [angle] is Angle, [vecm w M] the library's w * M. *)
 From Coq Require Import Reals ZArith List.
 From Coquelicot Require Import Coquelicot.
-From LP Require Import Num NumR C16_Model C16_Proofs.
+From LP Require Import Num NumR C16_Model C16_Proofs C16_Proofs_Hist.
 Import ListNotations.
 Local Open Scope R_scope.
 
@@ -141,3 +145,79 @@ Theorem C16_nonvacuous :
   (nonzero3 3 0 4 /\ Rhypot (cx (nhat [3; 0; 4])) (cy (nhat [3; 0; 4])) <> 0).
 Proof. exact (conj ex_nonzero (conj ex_perpendicular (conj ex_branch_plain (conj ex_branch_antiparallel ex_branch_general)))). Qed.
 Print Assumptions C16_nonvacuous.
+
+(** ** Argument objects with a past.  The axis handed to Rotation_Matrix / Spherical_Coordinates is an object that was constructed,
+    asked questions, copied and changed in place before; "for every non-zero axis" speaks about the value it has at the call. *)
+
+(** questions (const members, reads, copies, earlier calls of the property's own functions) leave the object alone - every number type *)
+Theorem C16_history_questions_keep_the_object {T} (Ops : NumOps T) (hyp : T -> T -> T) (h : list (@vstep T)) (v v' : list T) :
+  forallb vstep_is_question h = true -> vhistory Ops hyp v h = Ok v' -> v' = v.
+Proof. exact (vhistory_questions_keep Ops hyp h v v'). Qed.
+Print Assumptions C16_history_questions_keep_the_object.
+
+(** v += w and v -= w give the object the value of v + w and v - w *)
+Theorem C16_compound_assignment_value (hyp : R -> R -> R) (a0 a1 a2 w0 w1 w2 : R) :
+  (vstep_apply ROps hyp [a0; a1; a2] (VAddAssign [w0; w1; w2]) = Ok [a0 + w0; a1 + w1; a2 + w2] /\
+   vstep_apply ROps hyp [a0; a1; a2] (VPlus [w0; w1; w2]) = Ok [a0 + w0; a1 + w1; a2 + w2]) /\
+  (vstep_apply ROps hyp [a0; a1; a2] (VSubAssign [w0; w1; w2]) = Ok [a0 - w0; a1 - w1; a2 - w2] /\
+   vstep_apply ROps hyp [a0; a1; a2] (VMinus [w0; w1; w2]) = Ok [a0 - w0; a1 - w1; a2 - w2]).
+Proof. exact (conj (add_assign_value hyp a0 a1 a2 w0 w1 w2) (sub_assign_value hyp a0 a1 a2 w0 w1 w2)). Qed.
+Print Assumptions C16_compound_assignment_value.
+
+(** two objects with the same value give the same rotation and the same spherical coordinates, whatever their histories - every number type *)
+Theorem C16_results_depend_on_value_not_history {T} (Ops : NumOps T) (hyp : T -> T -> T) (s1 s2 : list T) (h1 h2 : list (@vstep T)) (a : list T) :
+  vhistory Ops hyp s1 h1 = Ok a -> vhistory Ops hyp s2 h2 = Ok a ->
+  (forall alpha dim, rotation_of_object Ops hyp alpha dim s1 h1 = rotation_of_object Ops hyp alpha dim s2 h2) /\
+  (forall r theta phi, spherical_of_object Ops hyp r theta phi s1 h1 = spherical_of_object Ops hyp r theta phi s2 h2).
+Proof. exact (history_independent Ops hyp s1 s2 h1 h2 a). Qed.
+Print Assumptions C16_results_depend_on_value_not_history.
+
+(** a 3-D rotation about an object with any history: the matrix is proper orthogonal and fixes the value the object has at the call *)
+Theorem C16_rotation3_about_object (s : list R) (h : list (@vstep R)) (alpha : R) (Rm : list (list R)) :
+  rotation_of_object ROps Rhypot alpha 3 s h = Ok Rm ->
+  exists a0 a1 a2, vhistory ROps Rhypot s h = Ok [a0; a1; a2] /\
+    (nonzero3 a0 a1 a2 ->
+       mmul ROps (mtr Rm) Rm = I3 /\ mmul ROps Rm (mtr Rm) = I3 /\ det3 Rm = 1 /\
+       mvec ROps Rm [a0; a1; a2] = [a0; a1; a2]).
+Proof. exact (rotation_of_object_proper s h alpha Rm). Qed.
+Print Assumptions C16_rotation3_about_object.
+
+(** spherical coordinates about an object with any history: norm r, component r cos(theta) along the value the object has at the call *)
+Theorem C16_spherical_about_object (s : list R) (h : list (@vstep R)) (a0 a1 a2 r theta phi : R) :
+  vhistory ROps Rhypot s h = Ok [a0; a1; a2] -> nonzero3 a0 a1 a2 ->
+  exists u, spherical_of_object ROps Rhypot r theta phi s h = Ok u /\
+    dot3 u u = r * r /\ dot3 u (nhat [a0; a1; a2]) = r * cos theta.
+Proof. exact (spherical_of_object_spec s h a0 a1 a2 r theta phi). Qed.
+Print Assumptions C16_spherical_about_object.
+
+(** "at polar angle theta from the axis", observed with the library's own Angle: Angle(u, axis) = Angle(axis, u) = theta
+    for r > 0 and theta in [0, pi] *)
+Theorem C16_angle_of_result_is_theta (r theta phi a0 a1 a2 : R) (u : list R) : nonzero3 a0 a1 a2 -> 0 < r -> 0 <= theta <= PI ->
+  spherical_axis ROps Rhypot r theta phi [a0; a1; a2] = Ok u ->
+  angle ROps u [a0; a1; a2] = Ok theta /\ angle ROps [a0; a1; a2] u = Ok theta.
+Proof. exact (angle_spherical_axis r theta phi a0 a1 a2 u). Qed.
+Print Assumptions C16_angle_of_result_is_theta.
+
+(** "transpose equals inverse", with the library's own products: (R v) R = v *)
+Theorem C16_rotation3_transpose_undoes (alpha a0 a1 a2 : R) (Rm : list (list R)) (v0 v1 v2 : R) : nonzero3 a0 a1 a2 ->
+  rotation_matrix ROps alpha 3 [a0; a1; a2] = Ok Rm ->
+  vecm ROps (mvec ROps Rm [v0; v1; v2]) Rm = Ok [v0; v1; v2].
+Proof. exact (rotation_back alpha a0 a1 a2 Rm v0 v1 v2). Qed.
+Print Assumptions C16_rotation3_transpose_undoes.
+
+(** the two halves of the property are right-handed about the same axis: turning the vector returned for (r, theta, phi) by alpha
+    about the axis gives the vector returned for (r, theta, phi + alpha) *)
+Theorem C16_rotation3_turns_spherical_vector (alpha r theta phi a0 a1 a2 : R) (Rm : list (list R)) (u u' : list R) : nonzero3 a0 a1 a2 ->
+  rotation_matrix ROps alpha 3 [a0; a1; a2] = Ok Rm ->
+  spherical_axis ROps Rhypot r theta phi [a0; a1; a2] = Ok u ->
+  spherical_axis ROps Rhypot r theta (phi + alpha) [a0; a1; a2] = Ok u' ->
+  mvec ROps Rm u = u'.
+Proof. exact (rotation_turns_spherical alpha r theta phi a0 a1 a2 Rm u u'). Qed.
+Print Assumptions C16_rotation3_turns_spherical_vector.
+
+(** Non-vacuity: an object that was asked for its norm, changed by += and copied is the non-zero axis (3, 0, 1); hypotheses of the Angle theorem *)
+Theorem C16_history_nonvacuous :
+  (vhistory ROps Rhypot [0; 0; 1] [VQNorm; VAddAssign [3; 0; 0]; VCopy] = Ok [3; 0; 1] /\ nonzero3 3 0 1) /\
+  (nonzero3 3 0 1 /\ 0 < 2 /\ 0 <= 0 <= PI).
+Proof. exact (conj ex_history ex_angle_hypotheses). Qed.
+Print Assumptions C16_history_nonvacuous.
